@@ -207,7 +207,6 @@ Definition body (c : connid) (m : tmsg) (r : refid) (t : refid) : M (res reply) 
         else if cap <? bv_n v then panic                      (* dataBuf[:n] out of range *)
         else ret (inr (ok p9_msgRread [bv_n v]))
       else if count =? 0 then ret (inr (ok p9_msgRread [0]))
-      else if fr_xlen fr <? off then panic                    (* buf[t.Offset:] after the 64-bit sum wrapped *)
       else ret (inr (ok p9_msgRread [N.min cnt (fr_xlen fr - off)]))
   | Twrite _ off len =>
       if fr_xop fr =? p9_xattrNone then
